@@ -7,7 +7,7 @@ From SV Require Import Proof.ReplaceMergedSorted Proof.PeaksNoCut.
 From SV Require Import Model.PeakProps Spec.PeakPropsSpec Proof.PeakPropsProof.
 From SV Require Import Model.Splitting Proof.SplittingProof.
 From SV Require Import Model.SumWaveform Proof.SumWaveformProof.
-From SV Require Import Model.HDR Proof.HDRProof.
+From SV Require Import Model.HDR Proof.HDRProof Spec.HDRSpec Proof.HDRLoopProof Proof.HDRDefProof.
 
 (* ------------------------------------------------------------------------------------------ *)
 (* symmetric_moving_average (repaired code: `just_out >= 0`, /repo 0edf9fa; `count = min(wing_width,
@@ -192,8 +192,7 @@ Print Assumptions C19_split_tiles_parent_pinned_refuted.
 
 (* ------------------------------------------------------------------------------------------ *)
 (* highest_density_region (repaired, /repo 1da565c: `len(gaps) >= _buffer_size`): every returned
-   interval list fits the result buffer; otherwise the -1 marker (None) is returned.  All other
-   facts about HDR rest on correspondence only. *)
+   interval list fits the result buffer; otherwise the -1 marker (None) is returned. *)
 Theorem C19_hdr_intervals_fit_buffer : forall data fs upper bs outs,
   highest_density_region data fs upper bs = Ok outs -> Forall (fits bs) outs.
 Proof. exact hdr_intervals_fit_buffer. Qed.
@@ -205,6 +204,61 @@ Theorem C19_hdr_intervals_fit_buffer_pinned_refuted :
   exists ivs bs, (zlen ivs - 1 >? bs) = false /\ ivs = runs (sort_z [4; 2; 0]) /\ ~ zlen ivs <= Z.max 1 bs.
 Proof. exact hdr_pinned_buffer_test_refuted. Qed.
 Print Assumptions C19_hdr_intervals_fit_buffer_pinned_refuted.
+
+(* highest_density_region equals its definition (Spec/HDRSpec.v), for a non-negative sample array
+   with positive total and a fraction in (0, 1].
+   only_upper_part = True: the reported amplitude h is >= 0 and is THE height above which the
+   distribution holds exactly the fraction: sum over the samples above h of (sample - h) =
+   f * total; the intervals are exactly the maximal runs (non-empty, ascending, separated by at
+   least one index, covering precisely that set) of {i : data[i] > h}. *)
+Theorem C19_hdr_upper_is_definition : forall data f bs,
+  Forall (fun d => 0 <= d) data -> 0 < zsum data -> (0 < f)%Q -> (f <= 1)%Q ->
+  exists o, highest_density_region data [f] true bs = Ok [o] /\ hdr_upper_result data f o.
+Proof. exact hdr_upper_is_definition. Qed.
+Print Assumptions C19_hdr_upper_is_definition.
+
+(* only_upper_part = False.  Full statement: the intervals are exactly the maximal runs of an upper
+   level set {i : data[i] >= L} whose samples hold the fraction while no higher level set does, and
+   amplitude * (number of its samples) = (its area) - f * total.  False when the largest sample is
+   tied and one of the tied samples alone holds the fraction: the tie test
+   `lowest_sample_seen == data[max_to_min[j]]` never skips j = 1 (lowest_sample_seen starts at inf),
+   so only the last of the tied samples is returned. *)
+Definition C19_full_hdr_is_definition : Prop :=
+  forall data f bs,
+    Forall (fun d => 0 <= d) data -> 0 < zsum data -> (0 < f)%Q -> (f <= 1)%Q ->
+    exists o, highest_density_region data [f] false bs = Ok [o] /\ hdr_level_result data f o.
+
+Theorem C19_hdr_is_definition_partial : forall data f bs,
+  Forall (fun d => 0 <= d) data -> 0 < zsum data -> (0 < f)%Q -> (f <= 1)%Q -> no_top_tie data f ->
+  exists o, highest_density_region data [f] false bs = Ok [o] /\ hdr_level_result data f o.
+Proof. exact hdr_level_is_definition. Qed.
+Print Assumptions C19_hdr_is_definition_partial.
+
+Theorem C19_hdr_is_definition_refuted : ~ C19_full_hdr_is_definition.
+Proof. exact hdr_level_full_refuted. Qed.
+Print Assumptions C19_hdr_is_definition_refuted.
+
+(* the witness: data [3,1,3,0], fraction 1/4 -> the single interval [2,3), sample 0 (also 3) left out *)
+Theorem C19_hdr_is_definition_refuted_witness :
+  exists data f bs o,
+    Forall (fun d => 0 <= d) data /\ 0 < zsum data /\ (0 < f)%Q /\ (f <= 1)%Q /\
+    highest_density_region data [f] false bs = Ok [o] /\ ho_iv o = Some [(2, 3)] /\
+    ~ hdr_level_result data f o.
+Proof. exact hdr_level_tie_refuted. Qed.
+Print Assumptions C19_hdr_is_definition_refuted_witness.
+
+(* an ascending list of fractions: every fraction gets the result it would get alone (both modes);
+   a total <= 0 is the ValueError *)
+Theorem C19_hdr_fractions_independent : forall data fs upper bs, qsorted fs -> 0 < zsum data ->
+  exists outs, highest_density_region data fs upper bs = Ok outs /\
+               Forall2 (fun f o => highest_density_region data [f] upper bs = Ok [o]) fs outs.
+Proof. exact hdr_fractions_independent. Qed.
+Print Assumptions C19_hdr_fractions_independent.
+
+Theorem C19_hdr_no_area_is_error : forall data fs upper bs,
+  zsum data <= 0 -> highest_density_region data fs upper bs = Err 1.
+Proof. exact hdr_no_area. Qed.
+Print Assumptions C19_hdr_no_area_is_error.
 
 (* ------------------------------------------------------------------------------------------ *)
 (* sum_waveform.  Full statement: every processed peak has area = sum over channels, and its stored
